@@ -1,5 +1,10 @@
 import Req.Driver.Proto
 import Req.Client.Decode
+import Req.Client.DecodeSettings
+import Req.Client.RespHeader
+import Req.Client.Sniff
+import Req.Client.PrefixCode
+import Req.Client.DecodePath
 /-!
 Driver lanes of C15.
 
@@ -12,6 +17,33 @@ the `<tbl>` argument: `in=out;in=out…`, hex, sent by the harness from x/text).
   table `content=decid/name;…` (`-` = empty), `segs`/`term`/`lwt` = the scripted source, `bufs` =
   caller buffer sizes of the first reads, then `tail`-sized buffers until the stream ends.
   Answer: `<hex of everything returned> <eof|err|panic|none> <raw|hdr|auto:<detected><hasDecoder><peek>>`.
+* `c15readp <prog> <use> <ae> <ct> …as c15read…` — the same, with the configuration COMPUTED by the
+  model from a program of setter calls / clonings over a family of clients (`Req.Decode.runFam`)
+  and the index of the member that performs the request.  `prog` = `;`-joined operations (`-` = none):
+  `D<i>` Disable, `E<i>` Enable, `A<i>` SetAutoDecodeAllContentType, `N<i>` SetAutoDecodeContentTypeFunc(nil),
+  `F<i>:<0|1>` a custom function (its verdict on this content type), `L<i>:<hexlist>`
+  SetAutoDecodeContentType(list), `C<i>` Clone of member `i`.
+* `c15cfg <prog> <use> <grid>` — the selection alone, over a grid of responses: `grid` =
+  `,`-joined `<content-type hex>/<ae hex>/<mp>/<lk>` entries (`lk` = a decoder id, or `W:<ok|nil|err>`: WHATWG table of the model, then what ianaindex says); in `prog` a custom function may also be named
+  (`G<i>:<k>`, the harness' three fixed functions: suffix `+verif`, even length, contains `charset`).
+  Answer: `,`-joined `raw|hdr|auto` (what `autoDecodeResponseBody` installs), one per grid entry.
+* `c15hdrs <mech> <fields> <disable> <filter> <cts> <tbl> <body> <full|wire> [<transport wrappers>,<client wrappers>]` — a response from its header FIELDS in
+  wire order: `mech` = `add` (HTTP/3: `Header.Add`) or `slots:<n>` (HTTP/1.1, HTTP/2: `n` pre-allocated
+  value slots), `fields` = `;`-joined `<name hex>=<value hex>` (`-` = none), `cts` = what the harness says
+  about every Content-Type value in the block (and about `""`): `;`-joined `<ct hex>=<mp>/<lk>`.  The body
+  arrives in one piece and carries no BOM / markup (nothing to sniff).  Answer:
+  `<header map: keys sorted, key=v1,v2;…> <body delivered hex>` and, with `full`, ` <eof|…> <raw|hdr|auto:…>`.
+  With `pre` = `C` the model runs the CONCRETE scanner (`Req.Prescan` automaton + `Req.Labels` table) on the
+  sniffed bytes instead of looking the verdict up in a table stated by the harness.
+* `c15findc <content>` — `FindEncoding` with the concrete scanner: `none` or the canonical name (hex) of the
+  encoding whose decoder is applied.
+* `c15label <label>` — `htmlcharset.Lookup(label)`: canonical name (hex) or `none`; `c15labels` — the
+  `,`-joined hex list of all labels of the model's table.
+* `c15mb <singles> <pairs> <chunks>` — the generic double-byte prefix code (`dbcsCode`) over tables stated by the
+  harness from x/text on 1- and 2-byte strings: `singles` = `;`-joined `<byte hex>=<out hex>` (a byte not listed
+  is a lead byte), `pairs` = `;`-joined `<2 bytes hex>=<out hex>/<1|2>` (bytes consumed).  Answer as `c15dec`.
+* `c15gbk <gbk|gb18030> <pairs> <fours> <chunks>` — GBK / GB18030 with the byte ranges of the MODEL; `pairs` =
+  `<2 bytes hex>=<code point, 0 = unmapped>`, `fours` = `<4 bytes hex>=<out hex>/<1|4>`.  Answer as `c15dec`.
 * `c15legacy …same… <dirty>` — the pinned tree's `peekRead`; buffers are pre-filled with the
   `dirty` pattern repeated.
 * `c15drain <peek|nil> <decid> <tbl> <segs> <term> <lwt> <bufs> <tail>` — `Read` from a state
@@ -71,6 +103,87 @@ def bomLookup (label : Bytes) : Option (Enc Bytes) :=
   else if label == ofStr "utf-16le" then some ⟨label, utf16 false⟩
   else if label == ofStr "utf-8" then some ⟨label, latin1⟩   -- decoder never used (dropUtf8)
   else none
+
+/-- canonical encoding name → decoder (Lean decoder where there is one, else the table decoder). -/
+def decOfName (tbl : List (Bytes × Bytes)) (name : Bytes) : D :=
+  if name == ofStr "windows-1252" then windows1252
+  else if name == ofStr "utf-16le" then utf16 false
+  else if name == ofStr "utf-16be" then utf16 true
+  else tableDecoder tbl
+
+def realP : Req.Prescan.Params := realParams fun _ => none
+
+/-- a decoder that "decodes" everything to its own name (to print which encoding was selected) -/
+def nameDecoder (name : Bytes) : D :=
+  { init := [], feed := fun s _ => (s, []), flush := fun _ => name, decodeAll := fun _ => name }
+
+def laneFindC : List String → String
+  | [content] =>
+    match decodeHex content with
+    | some c =>
+      match findC realP nameDecoder c with
+      | none => "none"
+      | some d => encodeHex (d.decodeAll [])
+    | none => "bad-op"
+  | _ => "bad-op"
+
+def laneLabel : List String → String
+  | [label] =>
+    match decodeHex label with
+    | some l => match realP.lookup l with
+      | some n => encodeHex n
+      | none => "none"
+    | none => "bad-op"
+  | _ => "bad-op"
+
+def laneLabels (_ : List String) : String := encodeList (Req.Labels.whatwg.map Prod.fst)
+
+def parseKV (s : String) : Option (List (Bytes × String)) :=
+  if s == "-" then some [] else
+  (s.splitOn ";").mapM fun e =>
+    match e.splitOn "=" with
+    | [a, b] => (decodeHex a).map fun x => (x, b)
+    | _ => none
+
+def showDec (d : D) (chunks : List Bytes) : String :=
+  let f := d.feedAll d.init chunks
+  encodeHex (d.decodeAll chunks.flatten) ++ " " ++ encodeHex (f.2 ++ d.flush f.1)
+
+def laneMb : List String → String
+  | [singles, pairs, chunks] =>
+    let r : Option String := do
+      let singles ← parseKV singles
+      let singles ← singles.mapM fun (k, v) => (decodeHex v).map fun o => (k, o)
+      let pairs ← parseKV pairs
+      let pairs ← pairs.mapM fun (k, v) =>
+        match v.splitOn "/" with
+        | [o, n] => (decodeHex o).map fun o => (k, (o, n == "2"))
+        | _ => none
+      let chunks ← decodeList chunks
+      let single := fun (b : UInt8) => singles.lookup [b]
+      let pair := fun (a b : UInt8) => (pairs.lookup [a, b]).getD (unknownInput, true)
+      pure (showDec (ofCode (dbcsCode single pair)) chunks)
+    r.getD "bad-op"
+  | _ => "bad-op"
+
+def laneGbk : List String → String
+  | [kind, pairs, fours, chunks] =>
+    let r : Option String := do
+      let pairs ← parseKV pairs
+      let pairs ← pairs.mapM fun (k, v) => v.toNat?.map fun n => (k, n)
+      let fours ← parseKV fours
+      let fours ← fours.mapM fun (k, v) =>
+        match v.splitOn "/" with
+        | [o, n] => (decodeHex o).map fun o => (k, (o, n == "4"))
+        | _ => none
+      let chunks ← decodeList chunks
+      let tbl := fun (a b : UInt8) => (pairs.lookup [a, b]).getD 0x21   -- '!' marks a pair the harness did not state
+      let four := fun (a b c d : UInt8) => (fours.lookup [a, b, c, d]).getD (unknownInput, true)
+      if kind == "gbk" then pure (showDec (ofCode (gbkCode tbl)) chunks)
+      else if kind == "gb18030" then pure (showDec (ofCode (gb18030Code tbl four)) chunks)
+      else none
+    r.getD "bad-op"
+  | _ => "bad-op"
 
 def parseFilter (s : String) : Option (Option (Bytes → Bool)) :=
   if s == "default" then some none
@@ -141,17 +254,166 @@ def parseReadArgs : List String → Option ReadArgs
     let mp ← parseMp mp
     let tbl ← parsePairs tbl
     let lk ← decOf tbl lk
-    let pre ← parsePrescan tbl pre
+    let concrete := pre == "C"
+    let pre ← if concrete then some [] else parsePrescan tbl pre
     let segs ← decodeList segs
     let term ← parseTerm term
     let lwt ← parseBool lwt
     let bufs ← decodeNatList bufs
     let tail ← tail.toNat?
     pure { cfg := ⟨dis, flt⟩, ae := ae, ct := ct, mp := mp, lk := lk,
-           find := findEncoding bomLookup (prescanOf pre),
+           find := if concrete then findC realP (decOfName tbl) else findEncoding bomLookup (prescanOf pre),
            src := ⟨segs, term, lwt⟩,
            bufs := bufs, tail := tail, fuel := fuelFor segs tbl }
   | _ => none
+
+/-- `D0`, `F2:1`, `L1:68746d6c,786d6c`, `C0` … -/
+def parseFamOp (t : String) : Option FamOp :=
+  match t.toList with
+  | [] => none
+  | k :: rest =>
+    let (digits, tailc) := rest.span Char.isDigit
+    let arg : Option String := match tailc with
+      | [] => some ""
+      | ':' :: a => some (String.ofList a)
+      | _ => none
+    match (String.ofList digits).toNat?, arg with
+    | some i, some a =>
+      if k == 'D' && a == "" then some (.on i .disable)
+      else if k == 'E' && a == "" then some (.on i .enable)
+      else if k == 'A' && a == "" then some (.on i .setAll)
+      else if k == 'N' && a == "" then some (.on i (.setFunc none))
+      else if k == 'C' && a == "" then some (.clone i)
+      else if k == 'F' && a == "0" then some (.on i (.setFunc (some fun _ => false)))
+      else if k == 'F' && a == "1" then some (.on i (.setFunc (some fun _ => true)))
+      else if k == 'G' && a == "0" then some (.on i (.setFunc (some fun ct => (ofStr "+verif").reverse.isPrefixOf ct.reverse)))
+      else if k == 'G' && a == "1" then some (.on i (.setFunc (some fun ct => ct.length % 2 == 0)))
+      else if k == 'G' && a == "2" then some (.on i (.setFunc (some fun ct => containsSub ct (ofStr "charset"))))
+      else if k == 'L' && tailc != [] then (decodeList a).map fun l => .on i (.setList l)
+      else none
+    | _, _ => none
+
+def parseProg (s : String) : Option (List FamOp) :=
+  if s == "-" then some [] else (s.splitOn ";").mapM parseFamOp
+
+def laneReadP : List String → String
+  | prog :: use :: rest =>
+    match parseProg prog, use.toNat?, parseReadArgs ("0" :: "default" :: rest) with
+    | some ops, some j, some a =>
+      match (runFam ops)[j]? with
+      | some cfg =>
+        showRR (respReads cfg a.ae a.ct a.mp (fun _ => a.lk) a.find a.src
+          (a.bufs ++ List.replicate a.fuel a.tail))
+      | none => "bad-op"
+    | _, _, _ => "bad-op"
+  | _ => "bad-op"
+
+/-- byte-lexicographic `<` on keys (Go's `sort.Strings`). -/
+def bytesLt : Bytes → Bytes → Bool
+  | [], [] => false
+  | [], _ :: _ => true
+  | _ :: _, [] => false
+  | a :: as, b :: bs => a < b || (a == b && bytesLt as bs)
+
+def insertKey (e : Bytes × List Bytes) : List (Bytes × List Bytes) → List (Bytes × List Bytes)
+  | [] => [e]
+  | x :: xs => if bytesLt e.1 x.1 then e :: x :: xs else x :: insertKey e xs
+
+def showHdr (h : Req.RespHeader.Hdr) : String :=
+  let sorted := h.foldl (fun acc e => insertKey e acc) []
+  if sorted.isEmpty then "-" else
+  ";".intercalate (sorted.map fun e => encodeHex e.1 ++ "=" ++ ",".intercalate (e.2.map encodeHex))
+
+def parseFields (s : String) : Option (List Req.RespHeader.Field) :=
+  if s == "-" then some [] else
+  (s.splitOn ";").mapM fun e =>
+    match e.splitOn "=" with
+    | [a, b] => do
+      let x ← decodeHex a
+      let y ← decodeHex b
+      pure (x, y)
+    | _ => none
+
+def laneHdrsShape (mech fields dis flt cts tbl body view shape : String) : String :=
+    let r : Option String := do
+      let shape ← match shape.splitOn "," with
+        | [a, b] => do
+          let a ← a.toNat?
+          let b ← b.toNat?
+          pure (⟨a, b⟩ : StackShape)
+        | _ => none
+      let fields ← parseFields fields
+      let hdr ←
+        if mech == "add" then some (Req.RespHeader.assemble fields)
+        else if mech.startsWith "slots:" then
+          (mech.drop 6).toString.toNat?.map fun n => Req.RespHeader.Slots.readOut (Req.RespHeader.Slots.run true n fields)
+        else none
+      let dis ← parseBool dis
+      let flt ← parseFilter flt
+      let tbl ← parsePairs tbl
+      let body ← decodeHex body
+      let ct := Req.RespHeader.get hdr Req.RespHeader.contentTypeKey
+      let ae := Req.RespHeader.get hdr Req.RespHeader.acceptEncodingKey
+      let cts ← (cts.splitOn ";").mapM fun e =>
+        match e.splitOn "=" with
+        | [c, v] =>
+          match v.splitOn "/" with
+          | [mp, lk] => do
+            let c ← decodeHex c
+            let mp ← parseMp mp
+            let lk ← decOf tbl lk
+            pure (c, (mp, lk))
+          | _ => none
+        | _ => none
+      let (mp, lk) ← cts.lookup ct
+      let readAll := fun (b : Bytes) =>
+        respReads ⟨dis, flt⟩ ae ct mp (fun _ => lk) (fun _ => none) ⟨if b.isEmpty then [] else [b], .eof, false⟩
+          (List.replicate (fuelFor [b] tbl) 4096)
+      let rr := readAll body
+      if view == "full" then pure (showHdr hdr ++ " " ++ showRR rr)
+      else if view == "wire" ∧ rr.term = some .eof then
+        -- the body after the whole path through the stack (`runPath`, one body stage)
+        pure (showHdr hdr ++ " " ++ encodeHex (runPath (fun b => (readAll b).out) (pathOf shape) body))
+      else none
+    r.getD "bad-op"
+
+def laneHdrs : List String → String
+  | [mech, fields, dis, flt, cts, tbl, body, view] => laneHdrsShape mech fields dis flt cts tbl body view "0,0"
+  | [mech, fields, dis, flt, cts, tbl, body, view, shape] => laneHdrsShape mech fields dis flt cts tbl body view shape
+  | _ => "bad-op"
+
+def showSel : Sel Bytes → String
+  | .untouched => "raw"
+  | .header _ => "hdr"
+  | .peek => "auto"
+
+def laneCfg : List String → String
+  | [prog, use, grid] =>
+    let r : Option String := do
+      let ops ← parseProg prog
+      let j ← use.toNat?
+      let cfg ← (runFam ops)[j]?
+      let cells ← (grid.splitOn ",").mapM fun e =>
+        match e.splitOn "/" with
+        | [ct, ae, mp, lk] => do
+          let ct ← decodeHex ct
+          let ae ← decodeHex ae
+          let mp ← parseMp mp
+          -- `W:<ok|nil|err>`: the model looks the charset up in ITS label table first; the suffix is what
+          -- ianaindex.MIME answers (implemented / registered without implementation / error)
+          let lookup : Option (Bytes → Option D) :=
+            if lk.startsWith "W:" then
+              let iana : Option (Iana Bytes) :=
+                if lk == "W:ok" then some (.ok (tableDecoder [])) else if lk == "W:nil" then some .unimplemented
+                else if lk == "W:err" then some .unknown else none
+              iana.map fun i => headerLookup realP.lookup (decOfName []) (fun _ => i)
+            else (decOf [] lk).map fun d => fun _ => d
+          let lookup ← lookup
+          pure (showSel (select cfg ae ct mp lookup))
+        | _ => none
+      pure (",".intercalate cells)
+    r.getD "bad-op"
+  | _ => "bad-op"
 
 def laneRead (args : List String) : String :=
   match parseReadArgs args with
@@ -218,6 +480,14 @@ def laneFind : List String → String
 
 def lanes : List (String × (List String → String)) := [
   ("c15read", laneRead),
+  ("c15readp", laneReadP),
+  ("c15cfg", laneCfg),
+  ("c15hdrs", laneHdrs),
+  ("c15findc", laneFindC),
+  ("c15mb", laneMb),
+  ("c15gbk", laneGbk),
+  ("c15label", laneLabel),
+  ("c15labels", laneLabels),
   ("c15legacy", laneLegacy),
   ("c15drain", laneDrain),
   ("c15dec", laneDec),
